@@ -34,7 +34,7 @@ def exportHandler : Handler
         let region := Scope.c14 g db ss
         let r14 : Check := do
           if isPanic erd then throw s!"MermaidJsErd panicked: {erd}"
-          check (erd == Exports.erd db need) s!"ERD is not the one of the schema: got {SExp.quote erd} want {SExp.quote (Exports.erd db need)}"
+          check (erd == Exports.erd ss db need) s!"ERD is not the one of the schema: got {SExp.quote erd} want {SExp.quote (Exports.erd ss db need)}"
           check (live == Mermaid.liveUrl ++ Base64.urlEncode erd) "MermaidJsLive is not the mermaid.ink URL of the URL-safe base64 of the ERD text"
         let r15 : Check := do
           let sel := Exports.selectDB db need
